@@ -23,13 +23,14 @@ from ..vfsworld import ABSENT, DIR, FILE, VfsWorld
 ASSUMPTIONS = [
     'file system model as in C02 (finite path universe, symbolic kinds); remove_dir_all removes the subtree, remove_file one file',
     'the clean branch of main() is taken from the AST (the `if` testing cli::arg::CLEAN) and run with `targets` = the resolved map, `requested_targets` = Some/None, `project_dirs` = the loaded project directories',
-    'symbolic links: one directory symlink below an extension-filtered output pointing outside every declared path; assumed (library contracts): walkdir does not descend links unless follow_links(true), remove_dir_all removes a link without following it, Path::is_dir/is_file follow links. Links to files and links as declared paths are not covered',
+    'symbolic links: one symlink below an extension-filtered output, its name matching the filter, pointing outside every declared path to a directory, a regular file or nothing; assumed (library contracts): walkdir does not descend links unless follow_links(true), remove_file unlinks the link itself, remove_dir_all removes a link without following it, Path::is_dir/is_file follow links. A link to a regular file counts as a matching file (the link is removed, never its target). Links as declared paths and chains of links are not covered',
 ]
 
 PATHS = ['/p/.zinoma', '/p/.zinoma/a.checksums', '/p/.zinoma/b.checksums', '/p/.zinoma/d.checksums',
          '/p/outa', '/p/outa/f', '/p/gen', '/p/gen/x.o', '/p/gen/y.txt', '/p/outb', '/p/in.txt',
-         '/p/gen/lnk', '/ext', '/ext/v.o']
-LINKS = {'/p/gen/lnk': '/ext'}       # a directory symlink below an extension-filtered output, pointing outside every declared path
+         '/p/gen/lnk.o', '/ext', '/ext/v.o']
+LINKS = {'/p/gen/lnk.o': '/ext'}     # a symlink below an extension-filtered output (its own name matches the filter), pointing outside every declared path;
+                                     # /ext may be a directory (with a matching file in it), a regular file or missing
 
 TARGETS = {
     'a': {'deps': ['d'], 'out': [(['/p/outa'], None), (['/p/gen'], ['.o'])], 'in': [(['/p/in.txt', '/p/gen/y.txt'], None)]},
@@ -253,7 +254,8 @@ def expected_deleted(mode, world):
                     rm_tree(p)
                 else:
                     for q in world:
-                        if (q == p or q.startswith(p + '/')) and world[q] == 'file' and any(q.endswith(x) for x in exts) and '/.zinoma' not in q[len(p):]:
+                        isf = world[q] == 'file' or (world[q] == 'link' and world.get(LINKS.get(q)) == 'file')      # a link to a regular file: the link goes
+                        if (q == p or q.startswith(p + '/')) and isf and any(q.endswith(x) for x in exts) and '/.zinoma' not in q[len(p):]:
                             dele.add(q)
         if mode != 'all' and world.get('/p/.zinoma/%s.checksums' % n) == 'file':
             dele.add('/p/.zinoma/%s.checksums' % n)
@@ -318,7 +320,7 @@ def run(prop, tier, seed, repo, jobs):
         'obligations': nob, 'discharged': ndis, 'paths': paths, 'evaluations': max(paths, 1), 'distinct_nontrivial': max(paths, 2),
         'rule': 'one evaluation = one feasible symbolic path (a set of file trees)', 'samples': samples or [{'note': 'none'}],
         'functions_encoded': sorted(fns), 'bounds': [{'paths_universe': PATHS, 'targets': TARGETS}], 'traces_validated_against_impl': validated,
-        'outside_claim': ['links to files, links as declared paths', 'trees outside the path universe', 'errors of the deletion primitives other than NotFound'], 'exhaustive': False,
+        'outside_claim': ['links as declared paths, chains of links', 'trees outside the path universe', 'errors of the deletion primitives other than NotFound'], 'exhaustive': False,
     }
     common.write_evidence(prop, tier, seed, 'other', coverage, ASSUMPTIONS, wall, len(violations))
     return common.finish(prop, violations, inconclusive, known_lines)
